@@ -148,6 +148,18 @@ def argv_checks(chk, binary):
             chk.violation("C18:output-path", "%s: processed header not (only) written to the output path" % what, dict(pre=pre, post=post))
         if not has_out and "static inline" not in r["stdout"]:
             chk.violation("C18:output-path", "%s: without an output path the processed header must go to stdout" % what, dict(pre=pre, post=post))
+    # the output path *receives* the processed header: whatever the file held before is gone
+    fresh = bgrun.run_tool(binary, w, em.text, config=None, out_name="fresh.h")
+    stale = os.path.join(w, "stale.h")
+    with open(stale, "w") as f:
+        f.write((fresh["text"] or "") + "\n/* tail of a longer, older header */\n" + "typedef struct OldThing { int x; } OldThing;\n" * 400)
+    env = common.env_with({"PATH": bgrun.FAKEBIN + ":" + os.environ.get("PATH", ""), "FAKE_CBINDGEN_HEADER": os.path.join(w, "raw.h"), "FAKE_CBINDGEN_LOG": os.path.join(w, "argv.log")})
+    r2 = common.run([binary, "--", "--crate", "api", "--output", stale], env=env, timeout=300, cwd=w)
+    n += 1
+    got = open(stale).read() if os.path.exists(stale) else None
+    if r2["rc"] != 0 or got != fresh["text"]:
+        chk.violation("C18:output-path-keeps-old-content", "regenerating into an existing, longer file: the file is %s bytes, the processed header %s bytes (rc %s)" % (
+            len(got) if got is not None else None, len(fresh["text"] or ""), r2["rc"]), None)
     # the configuration file is the one named before `--`, never one named after it
     r = bgrun.run_tool(binary, w, em.text, config={"function_prefix": "zz"}, post_args=["-c", "not-a-cglue-config.toml", "--output", os.path.join(w, "cfg.h")], out_name="cfg.h")
     if r["text"] is None or "zz_" not in r["text"]:
